@@ -1657,6 +1657,8 @@ def fold_form(F, b, tb):
         rec = [x for x in alts if contains(x, lambda y: y == ('rec',))]
         base = [x for x in alts if not contains(x, lambda y: y == ('rec',))]
         if len(rec) == 1 and len(base) == 1:
+            if not fold_step_unconditional(b, tb):
+                return None
             return base[0], rec[0], ('rec',)
         if len(base) == 2:
             # a loop whose step does not mention the accumulator at all: report it as a fold with a constant step
@@ -1664,4 +1666,150 @@ def fold_form(F, b, tb):
             rest = [x for x in base if x not in loops]
             if len(loops) == 1 and len(rest) == 1:
                 return rest[0], loops[0], ('rec',)
+    return None
+
+
+def fold_step_unconditional(b, tb):
+    """Loop form of a fold: the accumulator is re-assigned in EVERY iteration - the block of its in-loop definition dominates every
+    back edge of that loop (a `continue` / `if .. { acc = step }` around the step makes it a filtered fold, which is another function)."""
+    heads = _back_edge_targets(b)
+    def in_loop(d):
+        return any(b.dominates(h, d[0]) and h in b.reachable(d[0]) for h in heads)
+    if any(in_loop(d) for d in tb.defs(0)):
+        A = 0       # the return place itself is the accumulator
+    else:
+        accs = set()
+        for d in tb.defs(0):
+            bi, si, kind, payload = d
+            if kind == 'assign' and payload['k'] == 'use' and payload['op']['k'] in ('copy', 'move') and not payload['op']['place']['p']:
+                accs.add(chase_local(b, tb, payload['op']['place']['l'], through_calls=('clone',)))
+            elif kind == 'call' and b.callee(bi) is not None and b.callee(bi).name == 'clone' and payload['args'] and payload['args'][0]['k'] in ('copy', 'move') \
+                    and not payload['args'][0]['place']['p']:
+                accs.add(chase_local(b, tb, payload['args'][0]['place']['l'], through_calls=('clone',)))
+        if len(accs) != 1:
+            return False
+        A = next(iter(accs))
+    steps = []
+    for d in tb.defs(A):
+        hs = [h for h in heads if b.dominates(h, d[0]) and h in b.reachable(d[0])]
+        if hs:
+            steps.append((d, hs))
+    if len(steps) != 1:
+        return False
+    d, hs = steps[0]
+    # innermost loop containing the step
+    h = max(hs, key=lambda x: sum(1 for y in hs if b.dominates(y, x)))
+    sources = [x for x in b.normal_blocks() if h in b.succ(x) and b.dominates(h, x)]
+    return bool(sources) and all(b.dominates(d[0], x) for x in sources)
+
+
+# ---------------------------------------------------------------- adjacent scan with a carried "previous" element
+def chase_local(body, tb, l, through_calls=()):
+    """Root local of a chain of single-definition copies / moves / re-borrows (and, optionally, calls that hand their first
+    argument on: digest, into_iter, by_ref ..). Stops at a local with several definitions or any other kind of definition."""
+    seen = set()
+    while l not in seen:
+        seen.add(l)
+        ds = [d for d in tb.defs(l) if d[2] in ('assign', 'call')]
+        if len(ds) != 1 or len(tb.defs(l)) != 1:
+            return l
+        bi, si, kind, payload = ds[0]
+        if kind == 'assign':
+            rv = payload
+            if rv['k'] == 'ref' and all(p == 'deref' for p in rv['place']['p']):
+                l = rv['place']['l']
+                continue
+            if rv['k'] == 'use' and rv['op']['k'] in ('copy', 'move') and all(p == 'deref' for p in rv['op']['place']['p']):
+                l = rv['op']['place']['l']
+                continue
+            return l
+        c = body.callee(bi)
+        a = payload['args']
+        if c is not None and c.name in through_calls and a and a[0]['k'] in ('copy', 'move') and all(p == 'deref' for p in a[0]['place']['p']):
+            l = a[0]['place']['l']
+            continue
+        return l
+    return l
+
+
+def _some_payload_def(d):
+    """definition `x = (opt as Some).0` -> the option local, else None"""
+    bi, si, kind, rv = d
+    if kind != 'assign' or rv['k'] != 'use' or rv['op']['k'] not in ('copy', 'move'):
+        return None
+    p = rv['op']['place']['p']
+    if len(p) == 2 and isinstance(p[0], dict) and p[0].get('name') == 'Some' and isinstance(p[1], dict) and p[1].get('f') == 0:
+        return rv['op']['place']['l']
+    return None
+
+
+def prev_scan(body, tb, cmp_block):
+    """`let mut it = c.iter(); let Some(mut prev) = it.next() else {..}; for cur in it { if cmp(digest(prev), digest(cur)) { prev = cur } else {..} }`
+    recognised on the definitions of the two compared locals (their value terms are both "an element of c"):
+      cur  : one definition, the Some payload of next(I) inside a loop;
+      prev : two definitions - the Some payload of an earlier next() on the SAME iterator, made before the loop, and `prev = cur`
+             in a block that dominates every back edge of that loop.
+    Returns {'prev_arg': 0|1, 'header': loop header block, 'update': block of prev = cur, 'cur_next': block of the loop's next()} or None."""
+    t = body.term(cmp_block)
+    if not t or t['k'] != 'call' or len(t['args']) != 2:
+        return None
+    roots = []
+    for a in t['args']:
+        if a['k'] not in ('copy', 'move') or a['place']['p']:
+            return None
+        roots.append(chase_local(body, tb, a['place']['l'], through_calls=('digest', 'as_ref', 'borrow', 'deref')))
+    def next_iter_root(opt_local):
+        ds = tb.defs(opt_local)
+        if len(ds) != 1 or ds[0][2] != 'call':
+            return None, None
+        bi = ds[0][0]
+        c = body.callee(bi)
+        if c is None or c.name != 'next':
+            return None, None
+        a0 = ds[0][3]['args'][0]
+        if a0['k'] not in ('copy', 'move'):
+            return None, None
+        return chase_local(body, tb, a0['place']['l'], through_calls=('into_iter', 'by_ref', 'iter_mut_ref')), bi
+    for pi in (0, 1):
+        P, C = roots[pi], roots[1 - pi]
+        cd = tb.defs(C)
+        if len(cd) != 1:
+            continue
+        copt = _some_payload_def(cd[0])
+        if copt is None:
+            continue
+        iroot_c, cur_next = next_iter_root(copt)
+        if iroot_c is None:
+            continue
+        pd = [d for d in tb.defs(P)]
+        if len(pd) != 2:
+            continue
+        init = [d for d in pd if _some_payload_def(d) is not None]
+        upd = [d for d in pd if d[2] == 'assign' and _some_payload_def(d) is None]
+        if len(init) != 1 or len(upd) != 1:
+            continue
+        iroot_p, first_next = next_iter_root(_some_payload_def(init[0]))
+        if iroot_p is None or iroot_p != iroot_c:
+            continue
+        # prev = cur
+        rv = upd[0][3]
+        src = None
+        if rv['k'] == 'use' and rv['op']['k'] in ('copy', 'move'):
+            src = chase_local(body, tb, rv['op']['place']['l'])
+        elif rv['k'] == 'ref' and all(p == 'deref' for p in rv['place']['p']):
+            src = chase_local(body, tb, rv['place']['l'])
+        if src != C:
+            continue
+        ub = upd[0][0]
+        heads = [h for h in _back_edge_targets(body) if body.dominates(h, cmp_block) and body.dominates(h, cur_next) or h == cur_next]
+        heads = [h for h in heads if body.dominates(init[0][0], h)]
+        if len(heads) != 1:
+            continue
+        h = heads[0]
+        back_sources = [x for x in body.normal_blocks() if h in body.succ(x) and body.dominates(h, x)]
+        if not back_sources or not all(body.dominates(ub, x) for x in back_sources):
+            continue
+        if not body.dominates(cmp_block, ub):
+            continue
+        return {'prev_arg': pi, 'header': h, 'update': ub, 'cur_next': cur_next, 'prev': P, 'cur': C, 'iter': iroot_c}
     return None
